@@ -758,12 +758,15 @@ def _build_result_schema(result_type: object) -> pa.Schema:
     if result_type is type(None) or result_type is None:
         return _EMPTY_SCHEMA
 
+    # Strip ``X | None`` first (as _build_params_schema does) so that an optional
+    # dataclass result is a binary column too, not a struct column.
+    inner, is_nullable = _is_optional_type(result_type)
+
     # ArrowSerializableDataclass — serialize whole dataclass as binary blob
-    base = _unwrap_annotated(result_type)
+    base = _unwrap_annotated(inner)
     if isinstance(base, type) and issubclass(base, ArrowSerializableDataclass):
         return pa.schema([pa.field("result", pa.binary())])
 
-    inner, is_nullable = _is_optional_type(result_type)
     arrow_type = _infer_arrow_type(inner)  # handles Annotated natively
     return pa.schema([pa.field("result", arrow_type, nullable=is_nullable)])
 
